@@ -149,6 +149,19 @@ class Tracer:
                 code = code_of(func)
                 if code is not None and not code.co_flags & _CO_GENERATOR:
                     self._uni[code] = (name, on_start, on_return)
+        if Tracer.strict is not None:
+            # the strict-caller scope must cover all package code, not only the functions a module watches:
+            # every function of the computational modules becomes a handler-less scope marker
+            try:
+                from rv.mutmon import enumerate_functions
+
+                for name, func in enumerate_functions()[0]:
+                    code = code_of(func)
+                    if (code is not None and not code.co_flags & _CO_GENERATOR
+                            and code not in self._uni and code not in self._watched):
+                        self._uni[code] = (name, None, None)
+            except Exception:  # noqa: BLE001
+                pass
         for code in {**self._watched, **self._uni}:
             mon.set_local_events(TOOL_ID, code, _E.PY_START | _E.PY_RETURN)
         mon.set_events(TOOL_ID, _E.PY_UNWIND)
